@@ -234,6 +234,9 @@ pub struct SeqCase {
     pub lens: Vec<usize>,
     pub kinds: u32,
     pub pattern: u8,
+    /// `FrameBuf::resize(resize[i])` is called before step i (0 = no call; empty = never)
+    #[serde(default)]
+    pub resize: Vec<usize>,
 }
 
 /// Reference model of the pair: the frame buffer holds the last accepted block, the context the
@@ -249,33 +252,48 @@ fn check_fill_sequence(rep: &Report, local: &mut Local, sc: &SeqCase) {
         let mut m_last: Vec<i32> = Vec::new();
         let mut m_all: Vec<i32> = Vec::new();
         let mut m_frames = 0usize;
+        // capacity of the buffer (changed by resize) and whether the model knows the buffer's contents
+        // (what a resize leaves of an earlier fill is not specified)
+        let mut cap = sc.cap;
+        let mut known = true;
         for (step, &len) in sc.lens.iter().enumerate() {
+            if let Some(&r) = sc.resize.get(step) {
+                if r > 0 {
+                    pair.0.resize(r);
+                    cap = r;
+                    known = false;
+                    if pair.0.filled_size() > cap {
+                        return Err(("seq_resize_filled_size".into(), format!("after resize({r}) before step {step} the buffer reports {} filled samples", pair.0.filled_size())));
+                    }
+                }
+            }
             let blk = samples_for(&fc, len, 1000 * step + 7);
             let as_bytes = sc.kinds >> step & 1 == 1;
             let kind = if as_bytes { "byte" } else { "int" };
             let res = if as_bytes { pair.fill_le_bytes(&le_bytes(&blk, sc.bytes), sc.bytes) } else { pair.fill_interleaved(&blk) };
-            let accept = len <= sc.cap;
+            let accept = len <= cap;
             if res.is_ok() != accept {
-                return Err((format!("seq_result|{kind}"), format!("step {step}: {kind} fill of {len} samples into a buffer of {} returned ok = {}", sc.cap, res.is_ok())));
+                return Err((format!("seq_result|{kind}"), format!("step {step}: {kind} fill of {len} samples into a buffer of {cap} (created with {}, resizes {:?}) returned ok = {}", sc.cap, sc.resize, res.is_ok())));
             }
             if accept {
+                known = true;
                 m_last = blk.clone();
                 if len > 0 {
                     m_all.extend_from_slice(&blk);
                     m_frames += 1;
                 }
             }
-            let here = format!("after step {step} ({kind} fill of {len}; lengths {:?}, kinds {:#b})", sc.lens, sc.kinds);
+            let here = format!("after step {step} ({kind} fill of {len}; lengths {:?}, kinds {:#b}, resizes {:?})", sc.lens, sc.kinds, sc.resize);
             let filled = m_last.len() / sc.ch;
-            if pair.0.filled_size() != filled {
+            if known && pair.0.filled_size() != filled {
                 return Err((format!("seq_filled_size|{kind}"), format!("{here}: filled size {}, model {filled}", pair.0.filled_size())));
             }
             let (view, _) = framebuf_view(&pair.0);
-            if view.len() == sc.cap * sc.ch {
+            if known && view.len() == cap * sc.ch {
                 for c in 0..sc.ch {
                     for t in 0..filled {
-                        if view[c * sc.cap + t] != m_last[t * sc.ch + c] as i64 {
-                            return Err((format!("seq_framebuf_wrong|{kind}"), format!("{here}: channel {c} sample {t} holds {}, model {}", view[c * sc.cap + t], m_last[t * sc.ch + c])));
+                        if view[c * cap + t] != m_last[t * sc.ch + c] as i64 {
+                            return Err((format!("seq_framebuf_wrong|{kind}"), format!("{here}: channel {c} sample {t} holds {}, model {}", view[c * cap + t], m_last[t * sc.ch + c])));
                         }
                     }
                 }
@@ -293,7 +311,7 @@ fn check_fill_sequence(rep: &Report, local: &mut Local, sc: &SeqCase) {
         }
         // the frame encoded from the final buffer holds the last accepted block
         let filled = m_last.len() / sc.ch;
-        if sc.bps <= 24 && filled > 0 {
+        if sc.bps <= 24 && filled > 0 && known {
             let cfg = verbatim_cfg();
             let info = StreamInfo::new(44100, sc.ch, sc.bps).map_err(|e| ("machinery".to_string(), format!("{e:?}")))?;
             let fr = flacenc::encode_fixed_size_frame(&cfg, &pair.0, 0, &info).map_err(|e| ("seq_frame_encode_error".to_string(), format!("{e:?}")))?;
@@ -352,7 +370,18 @@ fn seq_cases(thorough: bool) -> Vec<SeqCase> {
                             let mut x = i;
                             let lens: Vec<usize> = (0..l).map(|_| { let a = alpha[x % alpha.len()]; x /= alpha.len(); a }).collect();
                             for kinds in 0..(1u32 << l) {
-                                v.push(SeqCase { ch, bps, bytes, cap, lens: lens.clone(), kinds, pattern });
+                                v.push(SeqCase { ch, bps, bytes, cap, lens: lens.clone(), kinds, pattern, resize: Vec::new() });
+                                // at most one call of FrameBuf::resize in the sequence, before any step, to a
+                                // larger and to a smaller buffer (sequences of length 2 and more)
+                                if l >= 2 && (ch <= 3 || ch == 8) {
+                                    for at in 0..l {
+                                        for new in [cap + 7, cap / 2] {
+                                            let mut resize = vec![0usize; l];
+                                            resize[at] = new;
+                                            v.push(SeqCase { ch, bps, bytes, cap, lens: lens.clone(), kinds, pattern, resize });
+                                        }
+                                    }
+                                }
                             }
                         }
                     }
@@ -501,5 +530,5 @@ pub fn run(args: &Args, rep: &Arc<Report>) {
     );
     rep.extra("fill_cases", json!(n));
     rep.extra("stream_cases", json!(m));
-    rep.set_rule("fill level: channels 1..=8 x (width,bytes/sample){(8,1),(12,2),(16,2),(20,3),(24,3),(32,4)} x capacity{32,33,64,100(,192)} x EVERY fill length 0..=capacity applied after a full fill x patterns{ramp through both extremes, min/max alternation, LCG}: FrameBuf contents (whole buffer, both paths; filled part vs input), filled size, Context digest (vs the harness's LE serialisation), sample count, frame number, and the verbatim-coded frame from each buffer decoded by the reference decoder; sequence level: on the pair (FrameBuf, Context) every fill sequence of length 1..=3 (thorough: 4) over the block lengths {0, 1, 2, cap/2, cap-1, cap, cap+1 (refused)} x EVERY assignment of the two deliveries to the steps, channels 1..=8 x 6 widths x capacity {32,33}, judged after every step against a reference model (buffer = last accepted block, context = all accepted blocks; a refused block changes nothing, an empty one is no frame) and at the end through the frame encoded from the buffer; stream level: channels 1..=8 x 5 widths x 4 shapes x 3 atoms: integer source vs byte source x {ST, MT, frame-level} byte-identical; non-trivial = a partial fill (0 < len < capacity) or a stream comparison");
+    rep.set_rule("fill level: channels 1..=8 x (width,bytes/sample){(8,1),(12,2),(16,2),(20,3),(24,3),(32,4)} x capacity{32,33,64,100(,192)} x EVERY fill length 0..=capacity applied after a full fill x patterns{ramp through both extremes, min/max alternation, LCG}: FrameBuf contents (whole buffer, both paths; filled part vs input), filled size, Context digest (vs the harness's LE serialisation), sample count, frame number, and the verbatim-coded frame from each buffer decoded by the reference decoder; sequence level: on the pair (FrameBuf, Context) every fill sequence of length 1..=3 (thorough: 4) over the block lengths {0, 1, 2, cap/2, cap-1, cap, cap+1 (refused)} x EVERY assignment of the two deliveries to the steps, channels 1..=8 x 6 widths x capacity {32,33}, judged after every step against a reference model (buffer = last accepted block, context = all accepted blocks; a refused block changes nothing, an empty one is no frame; with at most one FrameBuf::resize to a larger / smaller buffer before any step, after which the capacity is the new one and the contents are unspecified until the next accepted block) and at the end through the frame encoded from the buffer; stream level: channels 1..=8 x 5 widths x 4 shapes x 3 atoms: integer source vs byte source x {ST, MT, frame-level} byte-identical; non-trivial = a partial fill (0 < len < capacity) or a stream comparison");
 }
